@@ -4,7 +4,12 @@ import (
 	"bytes"
 	"crypto"
 	crand "crypto/rand"
+	_ "crypto/sha1"
+	_ "crypto/sha512"
 	"fmt"
+	_ "golang.org/x/crypto/blake2b"
+	_ "golang.org/x/crypto/blake2s"
+	_ "golang.org/x/crypto/sha3"
 	"io"
 	"math/big"
 
@@ -90,6 +95,20 @@ func (q *ecdsaReq) admissible() (bool, string) {
 // including values whose low 8 / 16 / 32 bits look like a valid one.
 var badEncodings = []secec.SignatureEncoding{3, -1, 255, 256, 257, 258, 512, -256, -255, 65536, 65538, 1 << 32, 1<<32 + 1, -1 << 63, 1<<63 - 1, 4}
 
+// hashCatalogue: hash functions a caller may name in its options: several
+// with 32-byte output that are not SHA-256, longer ones, ones whose digests
+// are too short to be signed at all; most are linked into this program
+// (Available() is true), the last three are not.
+var hashCatalogue = []crypto.Hash{crypto.SHA3_256, crypto.SHA512_256, crypto.BLAKE2s_256, crypto.BLAKE2b_256, crypto.SHA3_512, crypto.SHA3_384, crypto.BLAKE2b_512, crypto.BLAKE2b_384, crypto.SHA224, crypto.SHA1,
+	// not linked into this program (Available() is false; Size() is known)
+	crypto.MD5SHA1, crypto.RIPEMD160, crypto.MD4}
+
+// foreignOpts is a crypto.SignerOpts that is neither a crypto.Hash nor the
+// library's own options type.
+type foreignOpts struct{ h crypto.Hash }
+
+func (o foreignOpts) HashFunc() crypto.Hash { return o.h }
+
 // genOpts draws the options for a Sign call.
 func (w *World) genOpts(stream string, q *ecdsaReq) {
 	q.enc, q.encValid, q.hashSize = secec.EncodingASN1, true, -1
@@ -100,6 +119,19 @@ func (w *World) genOpts(stream string, q *ecdsaReq) {
 		q.opts, q.optsDesc, q.hashSize = crypto.SHA256, "crypto.SHA256", 32
 	case 2:
 		q.opts, q.optsDesc, q.hashSize = crypto.SHA512, "crypto.SHA512", 64
+	case 3:
+		// any other hash: the options name the hash that produced the
+		// digest, for length validation only
+		h := hashCatalogue[w.t.Choose(stream, "opts.anyhash", len(hashCatalogue))]
+		q.opts, q.optsDesc, q.hashSize = h, fmt.Sprintf("crypto.Hash(%d)=%s", h, h), h.Size()
+	case 4:
+		// options of somebody else's type (crypto.SignerOpts is an
+		// interface; callers pass what their framework hands them)
+		h := hashCatalogue[w.t.Choose(stream, "opts.anyhash", len(hashCatalogue))]
+		if w.t.Bool(stream, "opts.foreign.sha256") {
+			h = crypto.SHA256
+		}
+		q.opts, q.optsDesc, q.hashSize = foreignOpts{h}, fmt.Sprintf("foreignOpts{%s}", h), h.Size()
 	default:
 		// the options object is the caller's: two times out of three it is
 		// one that earlier calls of this history already used, with its
@@ -112,7 +144,7 @@ func (w *World) genOpts(stream string, q *ecdsaReq) {
 		} else if len(w.optsPool) < 3 {
 			w.optsPool = append(w.optsPool, o)
 		}
-		switch w.t.Choose(stream, "opts.hash", 5) {
+		switch w.t.Choose(stream, "opts.hash", 7) {
 		case 0, 1:
 			o.Hash, q.hashSize = crypto.Hash(0), 32
 		case 2:
@@ -121,6 +153,9 @@ func (w *World) genOpts(stream string, q *ecdsaReq) {
 			o.Hash, q.hashSize = crypto.SHA512, 64
 		case 4:
 			o.Hash, q.hashSize = crypto.SHA384, 48
+		default:
+			o.Hash = hashCatalogue[w.t.Choose(stream, "opts.anyhash", len(hashCatalogue))]
+			q.hashSize = o.Hash.Size()
 		}
 		e := w.t.Choose(stream, "opts.enc", 10)
 		switch {
@@ -208,10 +243,19 @@ func (w *World) execECDSA(q *ecdsaReq) *ecdsaOut {
 		}
 	}
 	var po callOut
-	if q.reader == rdNilGlobal || q.reader == rdExplicitGlobal {
-		withGlobalRand(out.dev, func() { po = protect(call) })
+	run := func() {
+		if q.reader == rdNilGlobal || q.reader == rdExplicitGlobal {
+			withGlobalRand(out.dev, func() { po = protect(call) })
+		} else {
+			po = protect(call)
+		}
+	}
+	if out.dev != nil && q.dev.Helper {
+		// on a goroutine of its own, whose stack is still small: the
+		// device's Read is then certain to make the runtime move it
+		kernel.OnFreshStack(run)
 	} else {
-		po = protect(call)
+		run()
 	}
 	out.panicked, out.panicMsg = po.panicked, po.panicMsg
 	return out
@@ -326,6 +370,13 @@ func (w *World) runECDSA(step int, q *ecdsaReq) *sigEvent {
 					return nil
 				}
 			}
+		}
+		if out.dev != nil && out.dev.MaxEmptyRun() > kernel.PatienceBound {
+			// failing closed on a reader that makes no progress for a long
+			// time is not what the property forbids (signing without the
+			// entropy is)
+			w.r.Probe("gave_up_with_an_error_after_a_long_run_of_empty_reads")
+			return nil
 		}
 		w.r.Violate("C09", "healthy-read-failed", opKey, step, "%s: no device error within the first 32 bytes, yet signing failed: %v", q.desc(), out.err)
 		return nil
@@ -712,8 +763,11 @@ func (w *World) opVariation(step int) {
 		}
 	}
 	ent := base.ent
-	what := w.t.Choose("ops", "var.what", 8)
-	if what >= 5 && (ent == nil || len(w.keys) < 2 && what != 6) {
+	what := w.t.Choose("ops", "var.what", 9)
+	if what == 8 && ent == nil {
+		what = 2
+	}
+	if what >= 5 && what < 8 && (ent == nil || len(w.keys) < 2 && what != 6) {
 		what -= 4 // the correlated changes need caller entropy (and a second key)
 	}
 	xor32 := func(a, b, c []byte) []byte {
@@ -741,6 +795,30 @@ func (w *World) opVariation(step int) {
 		copy(d, xor32(base.digest[:32], w.keys[base.key].dBytes, w.keys[nk].dBytes))
 		q.key, q.digest = nk, d
 		w.digests = append(w.digests, d)
+	case 8:
+		// different entropy, but the same residue modulo the group order (or
+		// the field prime): E and E +- n are different 32-byte strings.  When
+		// neither fits into 32 bytes the upper half of E is cleared instead,
+		// so that a later variation of this event can add the modulus.
+		m := ref.N
+		if w.t.Chance("ops", "var.modp", 1, 4) {
+			m = ref.P
+		}
+		e := ref.OS2IP(ent)
+		switch {
+		case e.Cmp(m) >= 0:
+			ent = ref.I2OSP32(new(big.Int).Sub(e, m))
+			w.r.Fault("entropy_changed_by_a_multiple_of_the_modulus")
+		case new(big.Int).Add(e, m).BitLen() <= 256:
+			ent = ref.I2OSP32(new(big.Int).Add(e, m))
+			w.r.Fault("entropy_changed_by_a_multiple_of_the_modulus")
+		default:
+			keep := 16
+			if m == ref.P {
+				keep = 4
+			}
+			ent = append(make([]byte, 32-keep), ent[32-keep:]...)
+		}
 	case 0: // nothing changes: must be byte-identical
 	case 1: // different key
 		if len(w.keys) > 1 {
@@ -922,7 +1000,19 @@ func (w *World) opSchnorrVariation(step int) {
 	}
 	base := w.schs[w.t.Choose("ops", "svar.base", len(w.schs))]
 	key, msg, aux := base.key, base.msg, append([]byte(nil), base.aux...)
-	switch w.t.Choose("ops", "svar.what", 4) {
+	switch w.t.Choose("ops", "svar.what", 6) {
+	case 4, 5:
+		// a strictly shorter message after a longer one, same key (a prefix
+		// of the earlier message; what the earlier call left in any buffer
+		// the library keeps must not show)
+		if len(msg) > 0 {
+			cut := 1 + w.t.Choose("ops", "svar.cut", len(msg))
+			if cut > 64 && w.t.Bool("ops", "svar.cutsmall") {
+				cut = 1 + cut%64
+			}
+			msg = append([]byte(nil), msg[:len(msg)-cut]...)
+			w.r.Probe("schnorr_shorter_message_after_longer")
+		}
 	case 1:
 		if len(w.keys) > 1 {
 			key = (key + 1) % len(w.keys)
@@ -952,10 +1042,24 @@ func (w *World) runSchnorr(step, key int, msg []byte, cfg kernel.DevCfg, useNil 
 		oi = 0
 	}
 	opts := optVals[oi]
-	if useNil {
-		withGlobalRand(dev, func() { po = protect(func() { sig, err = sg.sch.Sign(nil, msg, opts) }) })
+	if len(msg) == 0 {
+		// the empty message, as a nil slice or as an empty one
+		if msg = []byte{}; w.t.Bool("ops", "sch.nilmsg") {
+			msg = nil
+			w.r.Probe("schnorr_nil_message")
+		}
+	}
+	run := func() {
+		if useNil {
+			withGlobalRand(dev, func() { po = protect(func() { sig, err = sg.sch.Sign(nil, msg, opts) }) })
+		} else {
+			po = protect(func() { sig, err = sg.sch.Sign(dev, msg, opts) })
+		}
+	}
+	if cfg.Helper {
+		kernel.OnFreshStack(run)
 	} else {
-		po = protect(func() { sig, err = sg.sch.Sign(dev, msg, opts) })
+		run()
 	}
 	w.countDeviceFaults(dev)
 	desc := fmt.Sprintf("SchnorrSign key=%d msg=%x opts=%s rand=dev[%s] nil=%v", key, msg, optNames[oi], cfg.Summary(), useNil)
@@ -982,6 +1086,10 @@ func (w *World) runSchnorr(step, key int, msg []byte, cfg kernel.DevCfg, useNil 
 	}
 	if err != nil {
 		if cfg.ErrAt == 32 {
+			return
+		}
+		if dev.MaxEmptyRun() > kernel.PatienceBound {
+			w.r.Probe("gave_up_with_an_error_after_a_long_run_of_empty_reads")
 			return
 		}
 		w.r.Violate("C14", "healthy-read-failed", "SchnorrSign", step, "%s: no device error within the first 32 bytes, yet signing failed: %v", desc, err)
